@@ -1,8 +1,8 @@
 CONSTANTS
-  Names <- NamesT
+  Names <- NamesQ
   Unsent = "z"
-  Scripts <- ScriptsT
-  MaxLen = 3
+  Scripts <- ScriptsQ
+  MaxLen = 4
   MaxDeps = 1
 INIT Init
 NEXT Next
